@@ -130,6 +130,11 @@ func runC14(run *common.Run) {
 		if !run.Want("prog", i) || run.TooMany() {
 			return
 		}
+		if engine == "ldbdisk" && !drive.DiskEngineAvailable() {
+			// the emulator leaks the descriptors of every deleted on-disk table until the process exits
+			run.Count("disk_programs_skipped_for_descriptor_budget", 1)
+			return
+		}
 		j.Begin(i%64, fmt.Sprintf("C14 prog case=%d engine=%s", i, engine))
 		c14Program(run, prog, engine, i)
 		j.End(i % 64)
@@ -189,6 +194,9 @@ func c14Program(run *common.Run, prog int, engine string, idx int) {
 				reg[name] = nm
 				if deleted[name] {
 					sawRecreate = true
+				}
+				if engine == "ldbdisk" {
+					drive.NoteDiskTables(1)
 				}
 			}
 		case k < 5: // DeleteTable
